@@ -384,7 +384,17 @@ def run_case(c):
             res["counts"].append("boundary:set-order-ascending-throughout(insensitive)")
     # ---- oracle ----
     l_eff = c["l"] if 0 <= c["l"] <= 1 else 0.0
-    sv = np.asarray(Statevector(defn).data)
+    try:
+        sv = np.asarray(Statevector(defn).data)
+    except Exception as e:
+        # the factors' own definitions are built lazily, while the circuit is simulated: qclib (or the qiskit kernel under it)
+        # raised on a valid input
+        why = _classify_raise(node)
+        res["checks"].append((case_key("raises" + (":" + why if why else ""), c), False,
+                              f"simulating the definition raised {type(e).__name__}: {e}; plan qubits={node.qubits} ranks={node.ranks}"
+                              + (" -- a Lemma-2 pair (isometry.py:_unitary) whose squares are subnormal gave a non-unitary 2x2 matrix"
+                                 if why else ""), True, rep))
+        return res
     plan = plan_tensor(n, node.vectors, node.qubits)
     err_plan = float(np.abs(sv - plan).max())
     res["checks"].append((case_key("plan", c), err_plan <= tol, f"max|Statevector - plan tensor| = {err_plan:.3e}; "
@@ -470,6 +480,35 @@ def run_case(c):
         res["checks"].append((case_key("cx", c), cb <= cl, f"BAA circuit {cb} cx > LowRankInitialize {cl} cx "
                               f"(plan saved {node.total_saved_cnots})", True, dict(rep, cx_baa=cb, cx_lowrank=cl)))
     return res
+
+
+def _classify_raise(node):
+    """Failure path only: rebuild every factor of the plan with a spy on qclib.isometry._unitary (Lemma 2).  Returns
+    'subnormal-pair' when a pair of amplitudes of norm < 1e-150 (squares subnormal: np.linalg.norm is then off by several
+    percent) produced a 2x2 matrix that is not unitary, else ''."""
+    import qclib.isometry as qi
+    from qiskit.quantum_info import Statevector
+    from qclib.state_preparation import LowRankInitialize
+    seen = []
+    orig = qi._unitary
+
+    def spy(iso, basis=0):
+        out = orig(iso, basis)
+        nrm = float(np.linalg.norm(np.asarray(iso, dtype=complex)))
+        dev = float(np.abs(out @ out.conj().T - np.eye(2)).max())
+        if dev > 1e-9:
+            seen.append((nrm, dev))
+        return out
+    qi._unitary = spy
+    try:
+        for vec, rank, part in zip(node.vectors, node.ranks, node.partitions):
+            try:
+                Statevector(LowRankInitialize(vec, opt_params={"partition": part, "lr": rank}).definition)
+            except Exception:
+                pass
+    finally:
+        qi._unitary = orig
+    return "subnormal-pair" if any(0.0 < nrm < 1e-150 for nrm, _ in seen) else ""
 
 
 def _losses_on_path(R, node):
